@@ -6,8 +6,11 @@ R1 `self.graph` is keyed by `@id`, and the exported `@graph` is exactly its valu
    a. every store `self.graph[K] = V` in RunCrateProvenanceManager and its subclasses (class table) has
       K == V["@id"]: either K *is* the expression `V["@id"]`, or V is / was bound to a dict whose `"@id"` entry
       (literal entry or the last `V["@id"] = E` that reaches the store) is the same pure expression as K with no
-      operand rebound in between; an expression containing uuid4()/random/time is never "the same" twice;
-      after the store the object's `@id` is not reassigned;
+      operand rebound on a path definition -> rebinding -> store that does not execute the definition again (a temporary
+      `t = E; V["@id"] = t; self.graph[t] = V` in a loop body is fine), or K is a local copy `t = V["@id"]` taken after
+      the last (re)definition of V / V["@id"]; V must not reach the store from a binding that says nothing about its
+      `@id` (loop target, parameter) without passing such a definition; an expression containing uuid4()/random/time is
+      never "the same" twice; after the store the object's `@id` is not reassigned;
    b. every entry of the initial `self.graph = {...}` literal is keyed by its own `"@id"`;
    c. `create_archive` exports `"@graph": list(self.graph.values())` (no filter, no keys) and it is that metadata
       object which is serialised with json.dumps into `ro-crate-metadata.json`.
@@ -15,7 +18,7 @@ R2 File entity <-> files_map: every dict literal with `"@type": "File"` built in
    insertion `self.files_map[<source path>] = <that @id>` -- in the same function, on every normal path that leaves
    the literal's statement (or dominating it); a function that only *returns* such literals (`_list_dir`) must have
    every external caller hand the result to a registrar method that stores `self.files_map[...] = part["@id"]` for
-   each element (`_rename_parts`).
+   each element (`_rename_parts`; the stored value is recognised as the element's current `@id` by the same test as R1a).
 R3 archive population: `create_archive` iterates `self.files_map.items()` and writes each entry as
    `archive.write(<key: source path>, <value: archive name>)`.
 R4 one hash object per checksummed file: every call of a function that feeds a *caller supplied* hash object
@@ -140,6 +143,57 @@ def _names(e) -> set[str]:
     return {n.id for n in ast.walk(e) if isinstance(n, ast.Name)} - {"self"}
 
 
+def _keyed_by_id(p, f, sid: int, K, X: str):
+    """(ok, msg): the expression `K`, evaluated at CFG node `sid`, is the `"@id"` that the dict bound to local `X` has
+    at that node.  Accepted shapes:
+      * K is the expression `X["@id"]`;
+      * K is a local whose every reaching definition is the read `t = X["@id"]`, with no (re)definition of X / X["@id"]
+        between that read and `sid` (temporary for a repeated subscript);
+      * every definition of X["@id"] that reaches `sid` (a dict literal bound to X, or `X["@id"] = E`) has E == K as pure
+        expressions, no operand of K / E is rebound on a path definition -> rebinding -> sid that does not execute the
+        definition again, and X cannot arrive at `sid` from a binding without "@id" (loop / with target, parameter)."""
+    g = f.cfg
+    if _is_id_of(K, X):
+        return True, ""
+    srcs = _id_sources(f, X)
+    src_ids = {n for n, _, _ in srcs}
+    # bindings of X that say nothing about its "@id": loop / with / walrus / unpacking targets, the parameter
+    opaque = [b for b in assign_nodes(g, X) if b not in src_ids]
+    if X in f.params:
+        opaque.append(g.entry)
+    changes = src_ids | set(opaque)
+    if isinstance(K, ast.Name) and K.id != X:
+        kdefs = assign_nodes(g, K.id)
+        rd = reaching(f, K.id, sid)
+        if rd and "param" not in rd and all((vs := _bound_values(g.nodes[d], K.id)) and all(v is not None and _is_id_of(v, X) for v in vs) for d in rd):
+            stale = [c for d in rd for c in changes
+                     if c != d and c != sid and c in g.reach([d], avoid=kdefs) and g.path(c, [sid], avoid=kdefs) is not None]
+            if not stale:
+                return True, ""
+            # else: the copy may be stale; decided by the definitions of X["@id"] that reach the store (below)
+    reach_src = []
+    for nid, e, whole in [*srcs, *((o, None, True) for o in opaque)]:
+        if nid != sid and g.path(nid, [sid], avoid=changes - {nid}) is not None:
+            reach_src.append((nid, e))
+    if not reach_src:
+        return False, f"stored under `{unparse(K)}`, which is not `{X}[\"@id\"]`, and no definition of {X}[\"@id\"] reaches the store"
+    for nid, e in reach_src:
+        if e is None:
+            return False, f"`{X}` reaches the store without an \"@id\" ({g.nodes[nid].text(60)})"
+        if impure(p, f, expand(f, e)) or impure(p, f, expand(f, K)):
+            return False, f"key `{unparse(K)}` and `{X}[\"@id\"] = {unparse(e)}` are separate evaluations of a non-deterministic expression"
+        if norm(f, e) != norm(f, K):
+            return False, f"stored under `{unparse(K)}` but {X}[\"@id\"] is `{unparse(e)}`"
+        for nm in sorted(_names(K) | _names(e)):
+            for d in assign_nodes(g, nm):
+                # a rebinding matters only if the store can be reached from it without executing the definition again
+                # (in a loop body `t = E; X["@id"] = t; store[t] = X` the binding of t is "after" the definition only
+                # through the back edge, which leads to the definition first)
+                if d not in (nid, sid) and d in g.reach([nid], avoid=[sid]) and g.path(d, [sid], avoid=changes - {d}) is not None:
+                    return False, f"`{nm}` is rebound ({g.nodes[d].text(50)}) between `{X}[\"@id\"] = {unparse(e)}` and the store under `{unparse(K)}`"
+    return True, ""
+
+
 def r1(ctx):
     p = ctx.prog
     total = 0
@@ -167,31 +221,7 @@ def r1(ctx):
                     ok = True
             elif isinstance(Vv, ast.Name):
                 X = Vv.id
-                if _is_id_of(K, X):
-                    ok = True
-                else:
-                    srcs = _id_sources(f, X)
-                    reach_src = []
-                    for nid, e, whole in srcs:
-                        others = [o for o, _, _ in srcs if o != nid]
-                        if nid != sid and g.path(nid, [sid], avoid=others) is not None:
-                            reach_src.append((nid, e))
-                    if not reach_src:
-                        msg = f"stored under `{unparse(K)}`, which is not `{X}[\"@id\"]`, and no definition of {X}[\"@id\"] reaches the store"
-                    else:
-                        ok = True
-                        for nid, e in reach_src:
-                            if e is None:
-                                ok, msg = False, f"`{X}` reaches the store without an \"@id\" ({g.nodes[nid].text(60)})"
-                            elif impure(p, f, expand(f, e)) or impure(p, f, expand(f, K)):
-                                ok, msg = False, f"key `{unparse(K)}` and `{X}[\"@id\"] = {unparse(e)}` are separate evaluations of a non-deterministic expression"
-                            elif norm(f, e) != norm(f, K):
-                                ok, msg = False, f"stored under `{unparse(K)}` but {X}[\"@id\"] is `{unparse(e)}`"
-                            else:
-                                for nm in _names(K) | _names(e):
-                                    for d in assign_nodes(g, nm):
-                                        if d not in (nid, sid) and d in g.reach([nid], avoid=[sid]) and sid in g.reach([d]):
-                                            ok, msg = False, f"`{nm}` is rebound ({g.nodes[d].text(50)}) between `{X}[\"@id\"] = {unparse(e)}` and the store under `{unparse(K)}`"
+                ok, msg = _keyed_by_id(p, f, sid, K, X)
                 if ok:
                     # the @id must not change after the object was filed under it
                     rebinds = assign_nodes(g, X)
@@ -260,16 +290,23 @@ def _file_literals(f):
 
 
 def _registrars(p):
-    """methods storing self.files_map[...] = <loopvar>["@id"] for each element of a parameter: {name: param index}."""
+    """methods storing self.files_map[...] = <the @id of the loop variable> for each element of a parameter: {name: param index}.
+    The stored value is `part["@id"]`, a local copy of it, or the expression that was just assigned to `part["@id"]`
+    (`_keyed_by_id`)."""
     out = {}
     for m in _methods(p):
-        for stmt, K, W in _stores(m, "files_map"):
-            if isinstance(W, ast.Subscript) and isinstance(W.value, ast.Name) and const_str(W.slice) == "@id":
-                lv = W.value.id
-                for n in m.body_nodes():
-                    if isinstance(n, ast.For) and isinstance(n.target, ast.Name) and n.target.id == lv and isinstance(n.iter, ast.Name) and n.iter.id in m.params:
-                        if any(stmt is x for x in ast.walk(n)):
-                            out[m.name] = [a for a in m.params if a != "self"].index(n.iter.id)
+        fm = _stores(m, "files_map")
+        if not fm:
+            continue
+        g = m.cfg
+        loops = [n for n in m.body_nodes() if isinstance(n, ast.For) and isinstance(n.target, ast.Name) and isinstance(n.iter, ast.Name) and n.iter.id in m.params]
+        for stmt, K, W in fm:
+            sid = g.ids_of(stmt)
+            if not sid:
+                continue
+            for n in loops:
+                if any(stmt is x for x in ast.walk(n)) and _keyed_by_id(p, m, sid[0], W, n.target.id)[0]:
+                    out[m.name] = [a for a in m.params if a != "self"].index(n.iter.id)
     return out
 
 
@@ -784,6 +821,14 @@ _CA_IO = (
 )
 _AII = "await self.add_initial_inputs(wf_id, workflow)\n"
 _GTV = "elif (value := get_token_value(token)) is not None:"
+_RP = f"{BASE}._rename_parts"
+# normalised text of _rename_parts from the @id rewrite to the graph store (refactoring B11-7 caches the repeated
+# subscripts part['@id'] / self.graph[part['@id']] / part['alternateName'] in locals)
+_RP_ID = "part['@id'] = os.path.join(prefix, part['@id'])\n"
+_RP_ALT = "        if 'alternateName' in part:\n            part['alternateName'] = os.path.join(alternatePrefix, part['alternateName'])\n"
+_RP_STORE = "        self.files_map[path] = part['@id']\n        if part['@id'] not in self.graph:\n            self.graph[part['@id']] = part\n"
+_RP_TMP_ID = "part_id = os.path.join(prefix, part['@id'])\n        part['@id'] = part_id\n"
+_RP_TMP_STORE = "        self.files_map[path] = part_id\n        if part_id not in self.graph:\n            self.graph[part_id] = part\n"
 
 VARIANTS = [
     # ---- breaking
@@ -842,6 +887,18 @@ VARIANTS = [
     V("create_archive: add_initial_inputs dropped", FILE, _CA, "        " + _AII, "        pass\n", "R6"),
     V("create_archive: output values of the last run only (loop variable read after the loop)", FILE, _CA, "    for file in additional_files or []:",
       "    logger.info(f'exported {wf_id + 1} runs of {workflow.name}')\n    for file in additional_files or []:", "R6"),
+    # temporaries for part['@id'] (shape of refactoring B11-7) that are *not* the current @id
+    V("_rename_parts: @id temporary rebound between the @id assignment and the graph store", FILE, _RP, _RP_ID + _RP_ALT + _RP_STORE,
+      _RP_TMP_ID + _RP_ALT + "        self.files_map[path] = part['@id']\n        part_id = os.path.basename(part_id)\n        if part_id not in self.graph:\n            self.graph[part_id] = part\n", "R1"),
+    V("_rename_parts: graph keyed by a copy of the @id taken before it is rewritten", FILE, _RP, _RP_ID + _RP_ALT + _RP_STORE,
+      "old_id = part['@id']\n        " + _RP_ID + _RP_ALT + "        self.files_map[path] = part['@id']\n        if old_id not in self.graph:\n            self.graph[old_id] = part\n", "R1"),
+    V("_rename_parts: @id rewritten on one branch only, graph keyed by the temporary", FILE, _RP, _RP_ID + _RP_ALT + _RP_STORE,
+      "part_id = os.path.join(prefix, part['@id'])\n        if prefix:\n            part['@id'] = part_id\n" + _RP_ALT
+      + "        self.files_map[path] = part['@id']\n        if part_id not in self.graph:\n            self.graph[part_id] = part\n", "R1"),
+    V("_rename_parts: files_map gets a copy of the @id taken before it is rewritten", FILE, _RP, _RP_ID + _RP_ALT + "        self.files_map[path] = part['@id']\n",
+      "old_id = part['@id']\n        " + _RP_ID + _RP_ALT + "        self.files_map[path] = old_id\n", "R2"),
+    V("_rename_parts: files_map gets the @id temporary after it was rebound", FILE, _RP, _RP_ID + _RP_ALT + "        self.files_map[path] = part['@id']\n",
+      _RP_TMP_ID + _RP_ALT + "        part_id = os.path.basename(part_id)\n        self.files_map[path] = part_id\n", "R2"),
     # ---- benign
     V("benign: @id built into a local first", FILE, _PFT,
       "self.files_map[token_value['path']] = token_value['checksum'][5:]\n            self.graph[token_value['checksum'][5:]] = {'@id': token_value['checksum'][5:],",
@@ -868,4 +925,13 @@ VARIANTS = [
     V("benign: add_initial_inputs at the end of the per-run loop", FILE, _CA, "        " + _AII + _CA_IO, _CA_IO + "        " + _AII, None),
     V("benign: loop over the runs by index", FILE, _CA, "for wf_id, workflow in enumerate(self.workflows):\n",
       "for wf_id in range(len(self.workflows)):\n        workflow = self.workflows[wf_id]\n", None),
+    # refactoring B11-7: temporaries for the repeated subscripts of _rename_parts
+    V("benign: _rename_parts computes the new @id into a local used for part['@id'], files_map and the graph key (B11-7)", FILE, _RP,
+      _RP_ID + _RP_ALT + _RP_STORE, _RP_TMP_ID + _RP_ALT + _RP_TMP_STORE, None),
+    V("benign: _rename_parts reads the rewritten @id back into a local (B11-7)", FILE, _RP, _RP_STORE, "        part_id = part['@id']\n" + _RP_TMP_STORE, None),
+    V("benign: _rename_parts merges alternate names through an alias of the stored entity (B11-7)", FILE, _RP,
+      "if not isinstance(self.graph[part['@id']]['alternateName'], MutableSequence):\n                self.graph[part['@id']]['alternateName'] = [self.graph[part['@id']]['alternateName']]\n"
+      "            if part['alternateName'] not in self.graph[part['@id']]['alternateName']:\n                self.graph[part['@id']]['alternateName'].append(part['alternateName'])",
+      "graph_entry = self.graph[part['@id']]\n            if not isinstance(graph_entry['alternateName'], MutableSequence):\n                graph_entry['alternateName'] = [graph_entry['alternateName']]\n"
+      "            alternate_name = part['alternateName']\n            if alternate_name not in graph_entry['alternateName']:\n                graph_entry['alternateName'].append(alternate_name)", None),
 ]
